@@ -4,6 +4,7 @@
 import CSD.Driver.Dict
 import CSD.Model.PFC
 import CSD.Model.PFCLoad
+import CSD.Model.PFCPrefix
 import CSD.Model.Hash
 
 namespace CSD.Driver
@@ -18,6 +19,7 @@ def pfcModel (c : Case) : DictModel :=
     locate := fun q => PFC.locate d q          -- `none` prints `?`... a model fault must not pass silently:
     extract := fun i => PFC.extract d i
     image := PFC.save d
+    prefixRange := some fun p => PFC.locatePrefix d p
     reload := some fun stream =>
       match PFC.load stream with
       | some (d', rest) =>
